@@ -861,3 +861,12 @@ func (b *TxBuilder) Adopt(txns []types.Transaction, v2txns []types.V2Transaction
 		b.V2Txns = append(b.V2Txns, txn)
 	}
 }
+
+// FundV2 adds confirmed inputs covering need (plus change) to txn.
+func (b *TxBuilder) FundV2(txn *types.V2Transaction, need types.Currency) bool {
+	_, ok := b.fundV2(txn, need, false)
+	return ok
+}
+
+// CommitV2 validates txn on the builder's mid-state and records it.
+func (b *TxBuilder) CommitV2(kind string, txn types.V2Transaction) bool { return b.commitV2(kind, txn) }
